@@ -232,6 +232,11 @@ def run(ctx):
                                          or (f[0] == "variant" and not f[4] and f[3] == "Allow" and "arg4" in nshow(f[1])))
         ctx.check("excl:direct:non-allow", bool(ok5), "after the policy was found not to be Allow no ref is written", rules.where(di),
                   detail={"path": list(bad5.values())[:1]}, fn=di)
+    # data-ref updates carry Policy::Allow for every *listed* name; the only thing keeping rad/sigrefs out of them is that
+    # validation reports a listed `refs/rad/sigrefs` as missing
+    from .c01 import sigrefs_entry_rule
+    sigrefs_entry_rule(ctx)
+
     # pre_validate / ensure_threshold before fetching data in the special-refs stage
     pv = db.find(r"^<radicle_fetch::stage::SpecialRefs as radicle_fetch::stage::ProtocolStage>::pre_validate$")
     okpv = bool(pv) and any((c.get("n") or "").endswith("ensure_threshold") or "threshold" in (c.get("n") or "") for f in pv for _, _, c in db.calls(f))
